@@ -243,6 +243,8 @@ class Model:
         self.docs = docs
         self.leaf_cache = {}
         self.skipped_pairs = 0
+        self.unjudged_ok = 0
+        self.unjudged_raised = 0
         self.checked_pairs = 0
 
     def leaf_vec(self, t, di):
@@ -425,7 +427,18 @@ def on_boundary(eng, c, k, op, out):
         for di, d in enumerate(docs):
             exp = mo.expect(m, di)
             if exp is UNDEF:
+                # An operand raises on this document, so the statement says nothing
+                # about what the combination gives here - but the call is a legal
+                # one that FAILS, and the caller carries on with the same objects:
+                # it is made (its outcome is not judged) so that whatever a failed
+                # filter call leaves behind shows in the comparisons that follow
+                # ("each operand afterwards still filters as before").
                 mo.skipped_pairs += 1
+                try:
+                    obj.filter(d)
+                    mo.unjudged_ok += 1
+                except Exception:
+                    mo.unjudged_raised += 1
                 continue
             mo.checked_pairs += 1
             try:
@@ -491,6 +504,8 @@ def run(case):
         "ops_skipped": sum(1 for o in eng.outcomes.values() if o[0] == "skipped"),
         "probe_pairs_checked": st.model_obj.checked_pairs,
         "probe_pairs_skipped_undefined": st.model_obj.skipped_pairs,
+        "faults_fired": {"filter_call_that_raises": st.model_obj.unjudged_raised},
+        "undefined_pairs_filtered_anyway_without_raising": st.model_obj.unjudged_ok,
         "ops_by_kind": _by_kind(case),
         "key_with_index_combinations_outside_the_statement": len(st.unspecified),
         "parts_built_from_pool_entries": st.parts_built,
